@@ -15,7 +15,7 @@ from lib import dbcgen as G
 from lib import matrices as M
 
 PID = "C18"
-RULE = ("case 'conv' = (generated DBC matrix with unique frame and signal names, several senders and receivers, ECUs that send and receive, "
+RULE = ("case 'conv' = (generated DBC matrix with unique frame names, signal names unique per frame (half of the matrices reuse them across frames), several senders and receivers, ECUs that send and receive, "
         "receive-only and unreferenced ECUs, user attributes on frames and signals, zero-length signals, FD frames, frames of 1..64 bytes; "
         "no option, one option or a pair of options out of deleteEcu, renameEcu, deleteFrame, renameFrame, deleteSignal, renameSignal, "
         "deleteZeroSignals, deleteSignalAttributes, deleteFrameAttributes, setFrameFd, unsetFrameFd, skipLongDlc, cutLongFrames, "
@@ -28,7 +28,7 @@ RULE = ("case 'conv' = (generated DBC matrix with unique frame and signal names,
 PARTIAL = ["merge, signals, compressFrame (C16), deleteObsoleteDefines (C11), signalNameFromAttrib and the ARXML/PDU-container rewrite are "
            "not modelled", "only DBC input and output files", "the selection options are specified by the model of copy.py (C12), not by "
            "an independent clause"]
-ASSUMPTIONS = ["unique frame names and matrix-unique signal names in the input; new names of renames are fresh",
+ASSUMPTIONS = ["unique frame names, signal names unique within a frame (the same name may occur in several frames); new names of renames and new identifiers of changeFrameId are not in use",
                "the DBC round trip of the output is lossless on the compared fields (C05)"]
 TRUSTED = ["click.testing.CliRunner", "DBC reader used to observe the output (C05)"]
 CORRESPONDENCE = "re-read output of convert()/cli_convert == CanVerif.Conv.convert (Model/Convert.lean) on the abstract matrix"
@@ -43,7 +43,10 @@ def gen_matrix(rng):
     frames = []
     ids = set()
     signo = 0
+    shared_names = rng.random() < 0.5       # the same signal names ("Counter", "Checksum") in several frames
     for k in range(rng.randint(1, 5)):
+        if shared_names:
+            signo = 0
         ext = rng.random() < 0.3
         while True:
             arbid = rng.randrange(1, 1 << 29) if ext else rng.randrange(1, 1 << 11)
@@ -160,7 +163,9 @@ def gen_option(rng, m, name):
         return rng.choice(["max", "force"])
     if name == "changeFrameId":
         fr = rng.choice(m["frames"])
-        return [[fr["id"], rng.randrange(1, 0x7FF)]] if rng.random() < 0.8 else [[0x7FE, 5]]
+        used = {f["id"] for f in m["frames"]}
+        free = [i for i in (rng.randrange(1, 0x7FF) for _ in range(20)) if i not in used] or [0x7FD]
+        return [[fr["id"], free[0]]] if rng.random() < 0.8 else [[0x7FE, free[0]]]
     if name == "addFrameReceiver":
         return [[rng.choice(fnames + ["Frame*", "*", "Nope"]), rng.choice(m["ecus"] + ["NewEcu"])]]
     if name == "frames":
